@@ -8,7 +8,7 @@ from ..models import ModelEval, PyObj, Marker, Raised, fold
 from ..peval import Model, Unsupported, RaisedInModel, ProgramRaised
 from ..source import AnalysisError
 from ..specs import npmodel, operators as optab
-from .core_models import RawTok, NdTok, ARRAY_Q, VECTOR_Q
+from .core_models import slice_key, RawTok, NdTok, ARRAY_Q, VECTOR_Q
 
 ERR = (Unsupported, AnalysisError)
 DIMS = {"m": "L", "cm": "L", "km": "L", "s": "T", "dimensionless": "1", "percent": "1", "g": "M"}
@@ -592,7 +592,8 @@ def check_index_gate_fold(run, tree):
     def idx_array(dtype):
         return ev.instantiate(ci, [], {"values": RawTok("I", (4,), DT(dtype))}, None)
 
-    cases = [("slice", lambda: slice(1, 3, None), ("idx", "A", ("slice", 1, 3, None)), True),
+    cases = [("slice", lambda: slice(1, 3, None), ("idx", "A", slice_key((4,), slice(1, 3, None))), True),
+             ("reversing slice", lambda: slice(None, None, -1), ("idx", "A", slice_key((4,), slice(None, None, -1))), True),
              ("integer", lambda: 2, ("idx", "A", 2), True),
              ("ndarray", lambda: RawTok("M", (4,)), ("idx", "A", "M"), True),
              ("Vector", lambda: PyObj(tree.cls(VECTOR_Q)), "raises ValueError", False)]
